@@ -581,6 +581,17 @@ class Inliner:
             return [s]
         if isinstance(s, ast.ClassDef):
             return [s]
+        # `yield from gen(…)` as a statement, with gen a transparent generator helper, is `for t in gen(…): yield t` (nothing is sent
+        # into it and its value is dropped): written that way it is expanded like any loop over the helper
+        if isinstance(s, ast.Expr) and isinstance(s.value, ast.YieldFrom) and isinstance(s.value.value, ast.Call) and depth < MAX_DEPTH:
+            g0 = getattr(s.value.value, "_inl", None)
+            if g0 is not None and self.shape(g0) == "gen":
+                tmp = self._fresh("item", self._caller_names(f))
+                loop = ast.For(target=ast.Name(id=tmp, ctx=ast.Store()), iter=s.value.value,
+                               body=[ast.Expr(value=ast.Yield(value=ast.Name(id=tmp, ctx=ast.Load())))], orelse=[])
+                ast.copy_location(loop, s)
+                ast.fix_missing_locations(loop)
+                return self._stmt(f, loop, depth)
         call, ctx = None, None
         if isinstance(s, ast.Expr) and isinstance(s.value, ast.Call):
             call, ctx = s.value, ("expr", None)
@@ -930,9 +941,11 @@ class Inliner:
                 def visit_Lambda(self_, node):
                     return node
 
-            body = [x for st in body for x in _as_list(Y().visit(st))]
-            if any(isinstance(n, (ast.Yield, ast.YieldFrom)) for n in _own(body)):
+            # every yield of the helper is a statement of its own (checked before the consumer - which may yield itself - is put in)
+            stmt_yields = {id(n.value) for n in _own(body) if isinstance(n, ast.Expr) and isinstance(n.value, (ast.Yield, ast.YieldFrom))}
+            if any(isinstance(n, (ast.Yield, ast.YieldFrom)) and id(n) not in stmt_yields for n in _own(body)):
                 raise _Skip("yield used as an expression")
+            body = [x for st in body for x in _as_list(Y().visit(st))]
             new = pre + _nest(body, lambda v: [])
             if not new:
                 new = [ast.copy_location(ast.Pass(), s)]
